@@ -196,8 +196,20 @@ def run(ctx):
             ru = P.unbound(r)
             if ru[0] == 'call':
                 m = F.enclosing_item(F.fns[ru[1]])
-                no_send = not any(callee_is(t2, 'oneshot::Sender::send') for x in F.with_descendants(m) for _, t2 in x.calls())
-                timer = any(callee_is(t2, 'DelayQueue::remove') for x in F.with_descendants(m) for _, t2 in x.calls())
+                # the table's entry point through which the dispatch reached this removal (the removal itself may sit in a helper)
+                id_roots = {P.unbound(x) for x, _ in idr}
+                for h_ in reach:
+                    for b2_, t2 in h_.calls():
+                        mm = F.callee_fn(t2)
+                        if mm is None or not any(mm.id == x.id for x in table.methods) or table.is_helper(mm):
+                            continue
+                        if not any(b_.id == ru[1] for b_ in table.bodies(mm)):
+                            continue
+                        if any({P.unbound(x) for x, _ in P.root(P.operand(h_, a_, at=b2_))} == id_roots for a_ in t2['args'][1:]):
+                            m = mm    # the table method the dispatch calls with the id taken from the cancellation queue
+                bodies_m = table.bodies(m) if any(m.id == mm.id for mm in table.methods) else F.with_descendants(m)
+                no_send = not any(callee_is(t2, 'oneshot::Sender::send') for x in bodies_m for _, t2 in x.calls())
+                timer = any(callee_is(t2, 'DelayQueue::remove', 'DelayQueue::try_remove') for x in bodies_m for _, t2 in x.calls())
                 R.ob('C03.cancel', ('client table cancelling removal', 'forgets without completing'), no_send and timer,
                      'the cancelling removal drops the entry and its timer and does not resolve the (abandoned) call', [m.loc(m.d)])
         R.ob('C03.cancel', ('dispatch poll', 'cancel is written'), True, 'the Cancel message is handed to the transport', [g.loc(st_)])
